@@ -1,5 +1,5 @@
 """C19 -- instances equal masters at master locations and the model's blend elsewhere."""
-import copy, os, traceback
+import copy, io, os, traceback
 from fractions import Fraction as Fr
 from harness import gterm as G, geom, snap, dsgen
 from harness.fonts import build_font, jsonable
@@ -9,9 +9,15 @@ LEVEL_TEXT = ("PARTIAL. Proved in Coq for a two-master axis: an instance at a ma
               "number is the exact linear blend a + t(b - a) (and that formula meets the masters at the ends); swap_glyph_names does "
               "not move code points and, applied twice, restores kerning and group references (the renaming is an involution). The "
               "blend and the swap model are evaluated with vm_compute against Instantiator.generate_instance / swap_glyph_names on "
-              "generated two-master families (coordinates, advances, anchors, kerning; with rounding on, each value must be an integer within 1/2 of the exact blend -- fontMath rounds kerning half away from zero and geometry with otRound). Multi-axis blending is "
-              "fontTools' VariationModel (environment) and is checked against an independent bilinear restatement only on corner "
-              "masters. Also observed: the instance has exactly the default source's glyph set, rule swaps at a location, sources "
+              "generated two-master families (coordinates, advances, anchors, kerning; with rounding on, each value must be an integer within 1/2 of the exact blend -- fontMath rounds kerning half away from zero and geometry with otRound). For ANY number of masters and axes: the variation "
+              "model as Variator uses it (getDeltas + interpolateFromDeltas, Interp/VarModel.v) reproduces every master at its "
+              "location under the unit-lower-triangular hypothesis on the regions' scalars, which is evaluated on the real model of "
+              "every generated family together with an exact comparison of deltas and interpolated values (one and two axes, "
+              "intermediate masters, any input order); the two-master blend is proved to be that model. collect_glyph_masters is "
+              "transcribed (Interp/GlyphMasters.v): the masters taking part do not depend on the order of the sources, the default "
+              "and every outlined master always take part, a glyph empty in the default keeps all its masters -- exact "
+              "correspondence on random source lists. Three-master families in all source orders are judged per segment by the "
+              "blend statement. Also observed: the instance has exactly the default source's glyph set, rule swaps at a location, sources "
               "untouched by instance generation.")
 LEVEL_NOTE = "Trusted: Coq kernel, hand models, harness; fontMath / varLib are environment."
 TECHNIQUE = "Coq theorems (instance at master, exact linear blend, swap involution) + vm_compute correspondence with the Instantiator"
@@ -55,7 +61,118 @@ def g_vec(v):
     return G.lst([geom.g_q(x) for x in v], "Qc")
 
 
+def varmodel_section(ctx, tag="c19"):
+    """ufo2ft.instantiator.Variator (fontTools VariationModel underneath) on random master-location sets, one and two axes,
+    intermediate and corner masters, any input order: the Gallina get_deltas / interpolate (Interp/VarModel.v) against
+    getDeltas / interpolateFromMasters, the hypothesis rows_ok of model_reproduces_masters evaluated on the real model's
+    scalars, and the statement itself on the implementation (interpolation at a master's location, WITHOUT the
+    instance_at shortcut, gives that master)."""
+    from ufo2ft.instantiator import Variator
+    rng = ctx.subrng("varmodel-" + tag)
+    GRID = [Fr(-1), Fr(-1, 2), Fr(0), Fr(1, 2), Fr(1)]
+    PROBE = [Fr(k, 4) for k in range(-4, 5)]
+    cases, meta = [], []
+    for i in range(ctx.budget(40, 300)):
+        naxes = 1 + (i % 3 > 0)
+        axes = ["wght", "wdth"][:naxes]
+        pts = {tuple(Fr(0) for _ in axes)}
+        want = rng.randint(2, 5 if naxes == 1 else 7)
+        while len(pts) < want:
+            pts.add(tuple(rng.choice(GRID) for _ in axes))
+        pts = list(pts)
+        rng.shuffle(pts)                        # the default is not necessarily listed first
+        values = [rng.randint(-500, 1500) for _ in pts]
+        items = [({a: float(c) for a, c in zip(axes, p)}, v) for p, v in zip(pts, values)]
+        case = {"axes": axes, "masters": [[[str(c) for c in p], v] for p, v in zip(pts, values)]}
+        try:
+            var = Variator.from_masters(items, axes)
+            model = var.model
+            rows = [[Fr(x) for x in model.getScalars(loc)] for loc in model.locations]
+            ms = [values[model.reverseMapping[k]] for k in range(len(values))]
+            deltas = [Fr(x) for x in model.getDeltas(values)]
+            probes = []
+            for loc in [dict(l) for l in model.locations] + [{a: float(rng.choice(PROBE)) for a in axes} for _ in range(3)]:
+                full = {a: loc.get(a, 0.0) for a in axes}
+                probes.append(([Fr(x) for x in model.getScalars(full)], Fr(model.interpolateFromMasters(full, values)), full))
+            at_master = [(Fr(model.interpolateFromMasters({a: l.get(a, 0.0) for a in axes}, values)), Fr(var.instance_at({a: l.get(a, 0.0) for a in axes})))
+                         for l in model.locations]
+        except Exception as e:
+            ctx.spec_failure(case, "Variator raised %s: %s\n%s" % (type(e).__name__, e, traceback.format_exc()[-800:]))
+            continue
+        ctx.count(); ctx.klass("variation model: %d axis/axes, %d masters" % (naxes, len(pts)))
+        if len(pts) > 2:
+            ctx.nontriv(("vm", tag, i, ctx.scale))
+        for k, (a, b) in enumerate(at_master):
+            if a != ms[k] or b != ms[k]:
+                ctx.spec_failure(dict(case, master=k), "at master %d's location the model gives %s (instance_at: %s), the master is %s" % (k, a, b, ms[k]))
+        q = lambda xs: G.lst([geom.g_q(x) for x in xs], "Qc")
+        cases.append(G.tup(q([Fr(m) for m in ms]), G.lst([q(r) for r in rows], "(list Qc)"), q(deltas),
+                           G.lst([G.tup(q(sc), geom.g_q(v)) for sc, v, _ in probes], "(list Qc * Qc)")))
+        meta.append(dict(case, sorted_locations=[dict(l) for l in model.locations], deltas=[str(d) for d in deltas]))
+    vals = ctx.coq_eval("From Coq Require Import QArith Qcanon.\nFrom U2F Require Import Base.Prelude Geometry.Model Interp.VarModel.",
+                        "fun c : (list Qc * list (list Qc) * list Qc * list (list Qc * Qc)) => let '(ms, rows, deltas, probes) := c in "
+                        "(if qc_list_eqb (get_deltas ms rows []) deltas && forallb (fun p => qc_eqb (interpolate (fst p) (get_deltas ms rows [])) (snd p)) probes "
+                        "then 1 else 0) + (if rows_ok (length ms) rows then 2 else 0)", cases, chunk=60, tag="VarModel" + tag)
+    for v, case in zip(vals, meta):
+        if v is None:
+            continue
+        if not v & 2:
+            ctx.corr_mismatch(case, "the real VariationModel's scalars at the master locations are not unit lower triangular "
+                                    "(hypothesis rows_ok of model_reproduces_masters)")
+        elif not v & 1:
+            ctx.corr_mismatch(case, "Gallina get_deltas / interpolate differ from VariationModel.getDeltas / interpolateFromMasters")
+
+
+def glyph_masters_section(ctx):
+    """instantiator.collect_glyph_masters against Interp/GlyphMasters.v: sources in any order, the default anywhere, each
+    source lacking the glyph (sparse layer), holding it empty, or with an outline"""
+    from ufo2ft.instantiator import collect_glyph_masters, InstantiatorError
+    import ufoLib2
+    rng = ctx.subrng("glyph-masters")
+    cases, meta = [], []
+    for i in range(ctx.budget(80, 600)):
+        n = rng.randint(1, 5)
+        dflt = rng.randrange(n)
+        locs = rng.sample([100, 200, 300, 400, 500, 700, 900], n)
+        kinds = [rng.choice(["Absent", "Empty", "Empty", "Outlined", "Outlined"]) for _ in range(n)]
+        if i % 4 == 0:
+            kinds = ["Empty"] * n                      # a glyph that is empty everywhere (space)
+        if rng.random() < 0.85 and kinds[dflt] == "Absent":
+            kinds[dflt] = rng.choice(["Empty", "Outlined"])
+        layers = []
+        for k in range(n):
+            f = ufoLib2.Font()
+            if kinds[k] != "Absent":
+                g = f.newGlyph("x"); g.width = 100 + 10 * k
+                if kinds[k] == "Outlined":
+                    pen = g.getPen(); pen.moveTo((0, 0)); pen.lineTo((10 + k, 0)); pen.lineTo((5, 10)); pen.closePath()
+            layers.append(({"Weight": locs[k]}, f.layers.defaultLayer))
+        case = {"sources": [{"location": locs[k], "default": k == dflt, "glyph": kinds[k]} for k in range(n)]}
+        try:
+            got = collect_glyph_masters(layers, "x", {"Weight": (min(locs), locs[dflt], max(locs))}, dflt)
+            # identify kept masters by their advance width
+            obs = "(Some %s)" % G.lst(["(mkSrc %s %s %s)" % (G.z(locs[int(m.width - 100) // 10]), G.b(int(m.width - 100) // 10 == dflt),
+                                                               kinds[int(m.width - 100) // 10]) for _, m in got], "src")
+            kept = [locs[int(m.width - 100) // 10] for _, m in got]
+        except InstantiatorError:
+            obs, kept = "(@None (list src))", None
+        ctx.count(); ctx.klass("glyph masters: default %s, %s" % (kinds[dflt], "some other empty" if any(
+            kinds[k] == "Empty" for k in range(n) if k != dflt) else "no other empty"))
+        if n > 2 and dflt != 0:
+            ctx.nontriv(("gm", i, ctx.scale))
+        cases.append(G.tup(G.lst(["(mkSrc %s %s %s)" % (G.z(locs[k]), G.b(k == dflt), kinds[k]) for k in range(n)], "src"), obs))
+        meta.append(dict(case, kept_locations=kept))
+    vals = ctx.coq_eval("From U2F Require Import Base.Prelude Interp.GlyphMasters.",
+                        "fun c : (list src * option (list src)) => if option_eqb (list_eqb src_eqb) (collect (fst c)) (snd c) then 3 else 2",
+                        cases, chunk=200, tag="GlyphMasters")
+    for v, case in zip(vals, meta):
+        if v is not None and v != 3:
+            ctx.corr_mismatch(case, "Gallina collect (Interp/GlyphMasters.v) differs from instantiator.collect_glyph_masters")
+
+
 def explore(ctx):
+    glyph_masters_section(ctx)
+    varmodel_section(ctx, "c19")
     from ufo2ft.instantiator import Instantiator, swap_glyph_names
     from fontTools.designspaceLib import InstanceDescriptor
     rng = ctx.subrng("inst")
